@@ -253,6 +253,47 @@ func (x *Exec) loopEntry(s *State, b *ssa.BasicBlock, ord int) bool {
 		}
 	}
 	x.havocLoop(s, fr.fn, body)
+	// at the head of an arbitrary round the calls of the loop body may or may not have run before
+	// (retval / called / argval in an invariant must not read that as "never ran")
+	for bb := range body {
+		for _, bin := range bb.Instrs {
+			c, isCall := bin.(*ssa.Call)
+			if !isCall {
+				continue
+			}
+			if fr.ranCond == nil {
+				fr.ranCond = map[ssa.Value]T{}
+			} else {
+				cp := make(map[ssa.Value]T, len(fr.ranCond)+1)
+				for k2, v2 := range fr.ranCond {
+					cp[k2] = v2
+				}
+				fr.ranCond = cp
+			}
+			fr.ranCond[c] = x.fresh(s, "ran.before", SBool)
+			if rt := c.Call.Signature().Results(); rt.Len() == 1 {
+				fr.env[c] = x.freshVal(s, "ret.before", rt.At(0).Type())
+			} else if rt.Len() > 1 {
+				fr.env[c] = x.freshVal(s, "ret.before", rt)
+			} else {
+				fr.env[c] = Val{K: vNone}
+			}
+			if fr.callArgs != nil {
+				if _, have := fr.callArgs[c]; have {
+					cp := make(map[ssa.Value][]Val, len(fr.callArgs))
+					for k2, v2 := range fr.callArgs {
+						cp[k2] = v2
+					}
+					var fa []Val
+					for _, a := range c.Call.Args {
+						fa = append(fa, x.freshVal(s, "arg.before", a.Type()))
+					}
+					cp[c] = fa
+					fr.callArgs = cp
+				}
+			}
+		}
+	}
 	for _, in := range b.Instrs {
 		ph, ok := in.(*ssa.Phi)
 		if !ok {
